@@ -166,7 +166,7 @@ def run_lines(exe, lines, timeout_per_line=0.05, min_timeout=30, setup=None, env
         crashes.append({"line": lines[pos + n][:2000], "class": cls, "stderr": se[-1500:]})
         pos += n + 1
         guard += 1
-        if guard > 60:
+        if guard > 60 or sum(1 for c in crashes if c["class"] == "timeout") >= 3:
             while len(outs) < len(lines):
                 outs.append("CRASH too-many-crashes")
             break
